@@ -31,6 +31,9 @@ func (e UnsupportedTypeError) Error() string {
 // ErrInvalidUTF8 means that a decoder encountered invalid UTF-8.
 var ErrInvalidUTF8 = errors.New("hprose/io: invalid UTF-8")
 
+// ErrInvalidLength means that a decoder encountered a negative length or count.
+var ErrInvalidLength = errors.New("hprose/io: invalid length")
+
 // A CastError is returned by Decoder when can not cast source type to destination type.
 type CastError struct {
 	Source      reflect.Type
